@@ -425,11 +425,20 @@ Definition kattr_eqb (a b : kattr) := str_eqb (ka_name a) (ka_name b) && str_eqb
 Definition ostr_eqb (a b : option str) := match a, b with Some x, Some y => str_eqb x y | None, None => true | _, _ => false end.
 Definition kelem_eqb (a b : kelem) := str_eqb (ke_type a) (ke_type b) && ostr_eqb (ke_id a) (ke_id b) && str_eqb (ke_name a) (ke_name b) && leqb kattr_eqb (ke_attrs a) (ke_attrs b).
 Definition okdoc_eqb (a b : option kdoc) := match a, b with Some x, Some y => leqb kelem_eqb x y | None, None => true | _, _ => false end.
+Definition gref_eqb (a b : gref) := match a, b with GElem i, GElem j => Nat.eqb i j | GNull, GNull => true | GStub x, GStub y => str_eqb x y | _, _ => false end.
+Definition gitem_eqb (a b : gitem) := match a, b with GStr x, GStr y => str_eqb x y | GRef x, GRef y => gref_eqb x y | _, _ => false end.
+Definition gattr_eqb (a b : gattr) := str_eqb (ga_name a) (ga_name b) && str_eqb (ga_type a) (ga_type b) && Bool.eqb (ga_arr a) (ga_arr b) && leqb gitem_eqb (ga_items a) (ga_items b).
+Definition gelem_eqb (a b : gelem) := str_eqb (ge_type a) (ge_type b) && str_eqb (ge_id a) (ge_id b) && str_eqb (ge_name a) (ge_name b) && leqb gattr_eqb (ge_attrs a) (ge_attrs b).
+Definition ogdoc_eqb (a b : option gdoc) := match a, b with Some x, Some y => leqb gelem_eqb x y | None, None => true | _, _ => false end.
 (* per case: 0 ok, 1 model text differs from export_kv2(flat=True), 2 model parse of that text differs from parse_kv2,
-   3 the document is outside doc_ok (generator bug) *)
-Definition chk2 (c : kdoc * str * option kdoc) : N := let '(d, text, back) := c in
+   3 the document is outside doc_ok (generator bug), 4 the linked graph (fix-up pass) differs from the parsed object graph *)
+Definition chk2 (c : kdoc * str * option kdoc * option gdoc) : N := let '(d, text, back, gback) := c in
   if negb (doc_ok gen_tables gen_vtnames d) then 3
-  else if str_eqb (gen_render_doc d) text then (if okdoc_eqb (gen_parse_text text) back then 0 else 2) else 1.
+  else if str_eqb (gen_render_doc d) text
+       then (if okdoc_eqb (gen_parse_text text) back
+             then (if ogdoc_eqb (match gen_parse_text text with Some x => link x | None => None end) gback then 0 else 4)
+             else 2)
+       else 1.
 Fixpoint bad_idx {A} (f : A -> N) (n : N) (l : list A) : list N := match l with [] => [] | x :: r => (if f x =? 0 then [] else [n * 10 + f x]) ++ bad_idx f (n + 1) r end.
 """
 
@@ -466,6 +475,49 @@ def kdoc_of(root, conv_strings: bool = True) -> list:
             attrs.append((attr.name, attr.type.value, bool(attr.is_array), items))
         out.append((el.type, str(el.uuid), el.name, attrs))
     return out
+
+
+def gdoc_of(root) -> list:
+    """The object graph of a real element tree at the string level: like kdoc_of, but an element reference is the
+    index of the element (by object identity, breadth first), a stub keeps its UUID text."""
+    from srctools import dmx
+    order, idx = [root], {id(root): 0}
+    out = []
+    for el in order:
+        attrs = []
+        for key, attr in el._members.items():
+            if attr.name == 'name':
+                continue
+            raw = attr._value if attr.is_array else [attr._value]
+            items = []
+            for v in raw:
+                if attr.type is dmx.ValueType.ELEMENT:
+                    if v.is_null:
+                        items.append(('N',))
+                    elif v.is_stub:
+                        items.append(('T', str(v.uuid)))
+                    else:
+                        if id(v) not in idx:
+                            idx[id(v)] = len(order)
+                            order.append(v)
+                        items.append(('E', idx[id(v)]))
+                else:
+                    items.append(('S', dmx.TYPE_CONVERT[attr.type, dmx.ValueType.STRING](v)))
+            attrs.append((attr.name, attr.type.value, bool(attr.is_array), items))
+        out.append((el.type, str(el.uuid), el.name, attrs))
+    return out
+
+
+def coq_gdoc(g: list) -> str:
+    def item(i):
+        return {'N': lambda: '(GRef GNull)', 'S': lambda: f'(GStr {_cps(i[1])})', 'E': lambda: f'(GRef (GElem {i[1]}))',
+                'T': lambda: f'(GRef (GStub {_cps(i[1])}))'}[i[0]]()
+    els = []
+    for typ, uid, name, attrs in g:
+        al = [f'{{| ga_name := {_cps(n)}; ga_type := {_cps(t)}; ga_arr := {"true" if arr else "false"}; ga_items := {coq_list(item(i) for i in its)} |}}'
+              for n, t, arr, its in attrs]
+        els.append(f'{{| ge_type := {_cps(typ)}; ge_id := {_cps(uid)}; ge_name := {_cps(name)}; ge_attrs := {coq_list(al)} |}}')
+    return coq_list(els)
 
 
 def coq_kdoc(d: list) -> str:
@@ -515,7 +567,7 @@ def corr_kv2(ck: Ck) -> None:
     the model's text equals the exported text after the header line, and the model's parse of that text equals the
     string-level document of what Element.parse returns."""
     from srctools import dmx
-    n = ck.budget(60, 900)
+    n = ck.budget(40, 900)
     cases = []
     corpus = [s for _, s, ms in CORPUS if any(m['fmt'] == 'kv2' for m in ms)]
     for i in range(n):
@@ -537,17 +589,18 @@ def corr_kv2(ck: Ck) -> None:
         try:
             got, _, _ = dmx.Element.parse(io.BytesIO(data), unicode=(uni == 'silent'))
             back = f'(Some {coq_kdoc(kdoc_of(got))})'
+            gback = f'(Some {coq_gdoc(gdoc_of(got))})'
         except Exception:
-            back = 'None'
+            back = gback = 'None'
             ck.count('corr_kv2_impl_parse_error')
-        cases.append((spec, uni, f'({coq_kdoc(d)}, {_cps(text)}, {back})'))
+        cases.append((spec, uni, f'({coq_kdoc(d)}, {_cps(text)}, {back}, {gback})'))
         ck.count('corr_kv2_cases')
         ck.hist('corr_kv2_text_chars', len(text) // 500 * 500)
         if len(d) > 1 or d[0][3]:
             ck.seen(('k2', uni, repr(d)))
     bad = []
-    for lo in range(0, len(cases), 30):
-        vals = ck.coq_eval(IMPORTS_KV2, [f'bad_idx chk2 0 {coq_list(x[2] for x in cases[lo:lo + 30])}'], name='kv2', preamble=PRE_KV2)
+    for lo in range(0, len(cases), 45):
+        vals = ck.coq_eval(IMPORTS_KV2, [f'bad_idx chk2 0 {coq_list(x[2] for x in cases[lo:lo + 45])}'], name='kv2', preamble=PRE_KV2)
         if vals is None:
             ck.obligation('correspondence:kv2-flat-text', False, 'model could not be evaluated')
             ck.tie_broken.append('correspondence KV2 flat text: model evaluation failed')
@@ -555,7 +608,7 @@ def corr_kv2(ck: Ck) -> None:
         bad += [(lo + v // 10, v % 10) for v in parse_coq_N_list(vals[0])]
     ck.obligation('correspondence:kv2-flat-text', not bad,
                   f'{len(cases)} documents: Fmt/DmxKv2.v render_doc vs export_kv2(flat=True) text (exact), parse_text of that text vs '
-                  f'the string-level document of Element.parse: {len(bad)} disagreements')
+                  f'the string-level document of Element.parse, link (fix-up pass) vs the parsed object graph: {len(bad)} disagreements')
     if cases:
         ck.sample({'kv2_flat_case': {'unicode': cases[-1][1], 'spec': cases[-1][0]}})
     if bad:
@@ -563,7 +616,161 @@ def corr_kv2(ck: Ck) -> None:
         ck.tie_broken.append('correspondence KV2 flat text (Fmt/DmxKv2.v vs export_kv2/parse_kv2)')
         ck.extra['kv2_disagreement'] = {'spec': cases[i][0], 'unicode': cases[i][1],
                                         'kind': {1: 'model text differs from export_kv2', 2: 'model parse differs from parse_kv2',
-                                                 3: 'generated document outside doc_ok'}.get(code, code)}
+                                                 3: 'generated document outside doc_ok',
+                                                 4: 'model link (fix-up pass) differs from the parsed object graph'}.get(code, code)}
+
+
+
+# ------------------------------------------------------------------------------------------------ KeyValues2, nested layout
+IMPORTS_KV2N = IMPORTS_KV2 + ['SV.Fmt.DmxKv2Nested']
+PRE_KV2N = """Import ListNotations. Open Scope N_scope.
+Fixpoint leqb {A} (f : A -> A -> bool) (a b : list A) : bool :=
+  match a, b with [], [] => true | x :: a', y :: b' => f x y && leqb f a' b' | _, _ => false end.
+Definition ostr_eqb (a b : option str) := match a, b with Some x, Some y => str_eqb x y | None, None => true | _, _ => false end.
+Fixpoint nelem_eqb (a b : nelem) {struct a} : bool :=
+  match a, b with NElem t i n l, NElem t' i' n' l' =>
+    str_eqb t t' && ostr_eqb i i' && str_eqb n n' &&
+    (fix go (x y : list nattr) : bool := match x, y with [], [] => true | p :: x', q :: y' => nattr_eqb p q && go x' y' | _, _ => false end) l l' end
+with nattr_eqb (a b : nattr) {struct a} : bool :=
+  match a, b with NAttr n t r l, NAttr n' t' r' l' =>
+    str_eqb n n' && str_eqb t t' && Bool.eqb r r' &&
+    (fix go (x y : list nitem) : bool := match x, y with [], [] => true | p :: x', q :: y' => nitem_eqb p q && go x' y' | _, _ => false end) l l' end
+with nitem_eqb (a b : nitem) {struct a} : bool :=
+  match a, b with NStr x, NStr y => str_eqb x y | NNull, NNull => true | NRef x, NRef y => str_eqb x y
+                | NInline x, NInline y => nelem_eqb x y | _, _ => false end.
+Definition ondoc_eqb (a b : option ndoc) := match a, b with Some x, Some y => leqb nelem_eqb x y | None, None => true | _, _ => false end.
+(* per case: 0 ok, 1 model text differs from export_kv2(flat=False), 2 model parse differs from parse_kv2, 3 outside ndoc_ok *)
+Definition chk3 (c : ndoc * str * option ndoc) : N := let '(d, text, back) := c in
+  if negb (ndoc_ok gen_tables gen_fold gen_vtnames d) then 3
+  else if str_eqb (rendern_doc gen_tables d) text
+       then (if ondoc_eqb (parsen_text gen_tables gen_kv2_opts gen_fold gen_vtnames text) back then 0 else 2)
+       else 1.
+Fixpoint bad_idx {A} (f : A -> N) (n : N) (l : list A) : list N := match l with [] => [] | x :: r => (if f x =? 0 then [] else [n * 10 + f x]) ++ bad_idx f (n + 1) r end.
+"""
+
+
+def _is_keyword_type(t: str) -> bool:
+    """Harness copy of the rule: would the KV2 parser read this element type as an attribute type keyword?"""
+    f = t.casefold()
+    if f == 'elementid':
+        return True
+    if f.endswith('_array'):
+        f = f[:-6]
+    return f in U.VALUE_TYPE_NAMES
+
+
+def ntree_of(root, cull: bool) -> list:
+    """The nested-layout document of a real element graph: which elements are roots is recomputed here (used more than
+    once, keyword type, or the root itself — independent of export_kv2), the others are inline where they are used.
+    Element = (type, uuid text or None, name, [(attr name, type keyword, is_array, [item])]),
+    item = ('S', text) | ('N',) | ('R', uuid text) | ('I', element)."""
+    from srctools import dmx
+    elements, use = [root], {root.uuid: 1}
+    for el in elements:
+        for attr in el.values():
+            if attr.type is not dmx.ValueType.ELEMENT:
+                continue
+            for sub in (attr._value if attr.is_array else [attr._value]):
+                if isinstance(sub, dmx.StubElement):
+                    continue
+                if sub.uuid not in use:
+                    use[sub.uuid] = 1
+                    elements.append(sub)
+                else:
+                    use[sub.uuid] += 1
+    roots = {u for u, c in use.items() if c > 1} | {e.uuid for e in elements if _is_keyword_type(e.type)} | {root.uuid}
+
+    def mk(el):
+        attrs = []
+        for attr in el.values():
+            if attr.name == 'name':
+                continue
+            items = []
+            for v in (attr._value if attr.is_array else [attr._value]):
+                if attr.type is dmx.ValueType.ELEMENT:
+                    if v.is_null:
+                        items.append(('N',))
+                    elif v.is_stub or v.uuid in roots:
+                        items.append(('R', str(v.uuid)))
+                    else:
+                        items.append(('I', mk(v)))
+                else:
+                    items.append(('S', dmx.TYPE_CONVERT[attr.type, dmx.ValueType.STRING](v)))
+            attrs.append((attr.name, attr.type.value, bool(attr.is_array), items))
+        return (el.type, str(el.uuid) if (not cull or el.uuid in roots) else None, el.name, attrs)
+    return [mk(e) for e in elements if e.uuid in roots]
+
+
+def coq_nelem(e) -> str:
+    def item(i):
+        if i[0] == 'N':
+            return 'NNull'
+        if i[0] == 'S':
+            return f'(NStr {_cps(i[1])})'
+        if i[0] == 'R':
+            return f'(NRef {_cps(i[1])})'
+        return f'(NInline {coq_nelem(i[1])})'
+    typ, uid, name, attrs = e
+    al = [f'(NAttr {_cps(n)} {_cps(t)} {"true" if arr else "false"} {coq_list(item(i) for i in its)})' for n, t, arr, its in attrs]
+    return f'(NElem {_cps(typ)} {"None" if uid is None else "(Some " + _cps(uid) + ")"} {_cps(name)} {coq_list(al)})'
+
+
+def corr_kv2_nested(ck: Ck) -> None:
+    """Fmt/DmxKv2Nested.v writer and parser vs export_kv2(flat=False, cull_uuid) and parse_kv2: exact text, and the
+    parsed tree of blocks (inline elements where they were written)."""
+    from srctools import dmx
+    n = ck.budget(40, 900)
+    cases = []
+    corpus = [s for _, s, ms in CORPUS if any(m['fmt'] == 'kv2' for m in ms)]
+    for i in range(n):
+        uni = ck.rng.choice(['ascii', 'format', 'silent'])
+        cull = ck.rng.random() < 0.35
+        spec = corpus[i] if i < len(corpus) else U.gen_spec(ck.rng, uni != 'ascii')
+        if i >= len(corpus) and ck.rng.random() < 0.15:
+            spec['elems'][-1]['type'] = ck.rng.choice(U.KV2_AMBIGUOUS_TYPES)
+        elems = U.build(spec)
+        if any(a.name.casefold() == 'name' and a.name != 'name' for e in elems for a in e._members.values()):
+            continue
+        buf = io.BytesIO()
+        try:
+            elems[0].export_kv2(buf, flat=False, cull_uuid=cull, unicode=uni)
+        except Exception:
+            ck.count('corr_kv2n_export_error')
+            continue
+        data = buf.getvalue()
+        text = data.partition(b'\r\n')[2].decode('utf8' if uni != 'ascii' else 'ascii')
+        d = ntree_of(elems[0], cull)
+        try:
+            got, _, _ = dmx.Element.parse(io.BytesIO(data), unicode=(uni == 'silent'))
+            back = f'(Some {coq_list(coq_nelem(e) for e in ntree_of(got, cull))})'
+        except Exception:
+            back = 'None'
+            ck.count('corr_kv2n_impl_parse_error')
+        cases.append((spec, {'unicode': uni, 'cull_uuid': cull}, f'({coq_list(coq_nelem(e) for e in d)}, {_cps(text)}, {back})'))
+        ck.count('corr_kv2n_cases')
+        depth = text.count('\t\t\t\t')
+        ck.hist('corr_kv2n_has_depth3', bool(depth))
+        if len(d) > 1 or d[0][3]:
+            ck.seen(('k2n', uni, cull, repr(d)))
+    bad = []
+    for lo in range(0, len(cases), 45):
+        vals = ck.coq_eval(IMPORTS_KV2N, [f'bad_idx chk3 0 {coq_list(x[2] for x in cases[lo:lo + 45])}'], name='kv2n', preamble=PRE_KV2N)
+        if vals is None:
+            ck.obligation('correspondence:kv2-nested-text', False, 'model could not be evaluated')
+            ck.tie_broken.append('correspondence KV2 nested text: model evaluation failed')
+            return
+        bad += [(lo + v // 10, v % 10) for v in parse_coq_N_list(vals[0])]
+    ck.obligation('correspondence:kv2-nested-text', not bad,
+                  f'{len(cases)} documents: Fmt/DmxKv2Nested.v rendern_doc vs export_kv2(flat=False, cull_uuid) text (exact, roots '
+                  f'recomputed by the harness), parsen_text of that text vs the block tree of Element.parse: {len(bad)} disagreements')
+    if cases:
+        ck.sample({'kv2_nested_case': {'mode': cases[-1][1], 'spec': cases[-1][0]}})
+    if bad:
+        i, code = bad[0]
+        ck.tie_broken.append('correspondence KV2 nested text (Fmt/DmxKv2Nested.v vs export_kv2/parse_kv2)')
+        ck.extra['kv2_nested_disagreement'] = {'spec': cases[i][0], 'mode': cases[i][1],
+                                               'kind': {1: 'model text differs from export_kv2', 2: 'model parse differs from parse_kv2',
+                                                        3: 'generated document outside ndoc_ok'}.get(code, code)}
 
 
 # ------------------------------------------------------------------------------------------------ KV1 bridge
@@ -895,6 +1102,7 @@ EXPLAIN = {
     'instance:kv2_reference_tables_agree': ['kv2', 'stub'],
     'instance:kv2_stubs_written_by_reference': ['kv2', 'stub'],
     'correspondence:kv2-flat-text': ['kv2', ''],
+    'correspondence:kv2-nested-text': ['kv2', ''],
     'instance:kv2_keyword_typed_elements_written_at_root': ['kv2', 'element-type-is-value-type-name'],
     'instance:time_rounds_to_nearest_tick': ['binary', 'time'],
     'instance:time_scale_written_is_scale_read': ['binary', 'time'],
@@ -953,6 +1161,7 @@ def run(ck: Ck) -> None:
         corr_binary(ck)
         corr_kv2(ck)
         corr_keyword_predicate(ck)
+        corr_kv2_nested(ck)
         corr_kv1(ck)
     search_graphs(ck)
     search_kv1(ck)
